@@ -58,7 +58,38 @@ def is_negligible(gspec):
 
 
 def gen_bytes(rng, kind=None):
-    kind = kind or rng.choice(["empty", "one", "short", "short", "ascii", "long", "nul", "nonascii", "block"])
+    kind = kind or rng.choice(["empty", "one", "short", "short", "ascii", "long", "nul", "nonascii", "block",
+                               "exactlen", "textual", "pattern"])
+    if kind == "exactlen":
+        # lengths around hash-block / padding / typical buffer boundaries
+        n = rng.choice([15, 16, 17, 31, 32, 33, 55, 56, 57, 63, 64, 65, 119, 127, 128, 129, 255, 256, 257, 1000])
+        fill = rng.choice(["rand", "rand", "same", "ascii"])
+        if fill == "same":
+            return bytes([rng.randrange(256)]) * n
+        if fill == "ascii":
+            return bytes(rng.choice(b"abcdefghijklmnopqrstuvwxyz0123456789") for _ in range(n))
+        return bytes(rng.randrange(256) for _ in range(n))
+    if kind == "textual":
+        return rng.choice([b"pass word", b"password\n", b"password\r\n", b" password", b"\tpw", b'pw"quote', b"pw\\back",
+                           b"{\"a\":1}", b"deadbeef", b"DEADBEEF", b"0x1f", b"00", b"0", b"null", b"true", b"-1",
+                           "na\u00efve".encode(), "\u00fcber".encode(), "\U0001f600".encode(), "e\u0301".encode(),
+                           "\u00e9".encode(), b"A", b"B", b"S", b"M", b"N", b"symmetric", b"SPAKE2 pw", b"idA", b"%s",
+                           b"a" * 40, b"../x", b"pw;--", b"\x7f", b"\xc3\x28", b"\xef\xbb\xbfpw"])
+    if kind == "pattern":
+        n = rng.choice([2, 3, 4, 8, 20, 32])
+        b = bytearray(rng.randrange(256) for _ in range(n))
+        c = rng.randrange(5)
+        if c == 0:
+            b[rng.randrange(n)] = 0
+        elif c == 1:
+            b[-1] = 0xff
+        elif c == 2:
+            b[0] = 0
+        elif c == 3:
+            b[-1] = 0
+        else:
+            b[0] = 0x80
+        return bytes(b)
     if kind == "empty":
         return b""
     if kind == "one":
@@ -78,7 +109,10 @@ def gen_bytes(rng, kind=None):
 
 def gen_ids(rng):
     """identity pair (idA, idB) drawn from the classes that matter for transcripts"""
-    c = rng.randrange(8)
+    c = rng.randrange(9)
+    if c == 8:
+        v = gen_bytes(rng, rng.choice(["textual", "exactlen", "pattern"]))
+        return rng.choice([(v, v), (v, b""), (b"", v), (v, v[::-1]), (v, v + v)])
     if c == 0:
         return b"", b""
     if c == 1:
@@ -113,7 +147,20 @@ def gen_entropy(rng, gspec, edge_bias=0.35):
     q = order_of(gspec)
     m = rng.choice(["zeros", "target", "target", "target", "boundary", "redraws", "counter", "ones"])
     if m == "target":
-        v = rng.choice([0, 1, q - 1, q - 1, 2, (q - 1) // 2, (q + 1) // 2, rng.randrange(q)])
+        nb = max(1, (q.bit_length() + 7) // 8)
+        r = rng.randrange(q)
+        shaped = [
+            (r >> 8) << 8,                                  # low byte 0x00
+            ((r >> 8) << 8) | 0xff,                         # low byte 0xff
+            r & ~(0xff << (8 * rng.randrange(nb))),         # a zero byte somewhere inside
+            1 << (8 * rng.randrange(nb)),                   # 0x..0100..00: many leading zero bytes, one set bit
+            (1 << (8 * rng.randrange(1, nb + 1))) - 1,      # 0x00..00ffff
+            r >> (8 * rng.randrange(nb)),                   # k leading zero bytes
+            1 << (q.bit_length() - 1),                      # top bit only
+            255, 256, 257,
+        ]
+        v = rng.choice([0, 1, q - 1, q - 1, 2, (q - 1) // 2, (q + 1) // 2, rng.randrange(q)] +
+                       [x % q for x in shaped])
         return {"mode": "target", "v": str(v), "seed": seed}
     if m == "boundary":
         return {"mode": "boundary", "q": str(q), "seed": seed}
@@ -152,6 +199,16 @@ def gen_base_config(rng, flavour=None, mix=None, allow_toy=True, entropy_edge=0.
     pw = gen_bytes(rng)
     ida, idb = gen_ids(rng)
     ids = gen_bytes(rng)
+    if rng.random() < 0.06:
+        # an identity that equals the password, or all three equal
+        c = rng.randrange(4)
+        if c == 0:
+            ida = pw
+        elif c == 1:
+            idb = pw
+        elif c == 2:
+            ida = idb = pw
+        ids = pw
     nodes = []
     for cls in (("A", "B") if flavour == "AB" else ("S", "S")):
         nd = {"cls": cls, "pw": pw.hex(), "pset": 0, "entropy": gen_entropy(rng, gspec, entropy_edge)}
